@@ -28,7 +28,8 @@ def job_history(res, n, N, spacing, buckets, maxlen, cutoff_on):
     bld = field_build(); mod = load_module(bld, FIELD_MODS)
     snap, R, pre, plans, calib = field_world(bld, n, N, spacing, buckets, 1 if cutoff_on else 0)
     nb = len(buckets)
-    if not (calib.get('c2r_input_preserved') and calib.get('buffers_zero_after_planning')):
+    c2r_ok = calib.get('c2r_input_preserved') or (calib.get('c2r_inplace') and calib.get('c2r_inplace_tail_preserved'))      # in place: the model writes the outputs over the input cells exactly as the plan does (same addresses); the cells beyond stay
+    if not (c2r_ok and calib.get('buffers_zero_after_planning')):
         res.obs.append(Ob('FFTW calibration (planning leaves zeroed buffers zero; c2r leaves its input unchanged) for N=%d' % N, 'inconclusive', detail=str(calib))); return
     AP = {k: 3e-5 for k in ('wake', 'csr', 'csrpower', 'wake2', 'wpm_force')}
     validate(res, mod, snap, pre, {'fftwf_execute': fft_concrete(plans)}, approx=AP)
